@@ -183,20 +183,7 @@ pub fn replay_any(_c: &str, case: &Value, known: &Known) -> Option<Outcome> {
 }
 
 pub fn corpus_sources() -> Vec<Case> {
-    let mut v = vec![];
-    let dir = std::path::Path::new("/repo/prqlc/prqlc/tests/integration/queries");
-    if let Ok(rd) = std::fs::read_dir(dir) {
-        let mut files: Vec<_> = rd.filter_map(|e| e.ok().map(|e| e.path())).collect();
-        files.sort();
-        for f in files {
-            if f.extension().map(|e| e == "prql").unwrap_or(false) {
-                if let Ok(s) = std::fs::read_to_string(&f) {
-                    v.push(Case { source: s, sorted_sub: false, computed_sort_then_sub: false });
-                }
-            }
-        }
-    }
-    v
+    crate::util::corpus_programs().into_iter().map(|s| Case { source: s, sorted_sub: false, computed_sort_then_sub: false }).collect()
 }
 
 pub fn run(ctx: &Ctx) -> i32 {
